@@ -64,8 +64,10 @@ def gen_cases(tier, seed):
                     unbounded = rng.random() < 0.3
                     cases.append({'op': op, 'size': size, 'profile': prof, 'length': length, 'unbounded': unbounded,
                                   'fuzz': rng.random() < 0.6, 'seed': rng.randrange(1 << 30)})
-    for i in range(4 if tier == 'quick' else 60):
-        cases.append({'op': 'parmap-process', 'size': rng.choice([1, 2, 3]), 'profile': rng.choice(['slow-consumer', 'fast', 'slow-worker']),
+    for i in range(6 if tier == 'quick' else 90):
+        # the first three always keep every worker process busy (slow workers), so that an extra process shows as an extra overlapping call
+        prof = 'slow-worker' if i % 6 < 3 else rng.choice(['slow-consumer', 'fast', 'slow-worker'])
+        cases.append({'op': 'parmap-process', 'size': [1, 2, 3][i % 3], 'profile': prof,
                       'length': rng.choice([30, 80]), 'unbounded': False, 'fuzz': False, 'seed': rng.randrange(1 << 30)})
     return cases
 
@@ -97,7 +99,7 @@ def run_case(case):
     if prof == 'slow-consumer':
         cons_pause = lambda k: 0.003  # noqa: E731
     elif prof == 'slow-worker':
-        work_sleep = 0.004
+        work_sleep = 0.004 if op != 'parmap-process' else 0.012
     elif prof == 'slow-source':
         src_pause = lambda k: 0.002  # noqa: E731
     elif prof == 'long-stall':
